@@ -75,9 +75,32 @@ func linSearch(f []byte, rem []hop) bool {
 	return false
 }
 
+// linBytewise: every byte position, taken alone, has a linearizable history, and every size query saw the file's size
+func linBytewise(f []byte, hist []hop) bool {
+	for x := range f {
+		var proj []hop
+		for _, h := range hist {
+			switch h.kind {
+			case 'S':
+				if h.size != len(f) {
+					return false
+				}
+			case 'R', 'W':
+				if h.off <= x && x < h.off+h.ln && x-h.off < len(h.data) {
+					proj = append(proj, hop{id: h.id, call: h.call, ret: h.ret, kind: h.kind, off: 0, ln: 1, data: []byte{h.data[x-h.off]}})
+				}
+			}
+		}
+		if !linSearch([]byte{f[x]}, proj) {
+			return false
+		}
+	}
+	return true
+}
+
 func runC15(c *Ctx) {
 	c.Rule("G in {2,3,4} goroutines x <= 4 single-packet operations each (ReadAt, WriteAt within the extent, Stat) on 1-2 handles of one 16-byte file, over one Client, against {Server, RequestServer} x {allocator on, off}; " +
-		"call/return stamped by a global atomic counter; non-trivial = history with at least one write overlapping another operation in time")
+		"call/return stamped by a global atomic counter; obs = the brute-force verdict (compared with the extracted verified checker); a history of an os-backed server that is not linearizable as a whole but is so byte by byte is counted as torn by the kernel (pread/pwrite are not atomic: the property's proviso), not as a failure; non-trivial = history with at least one write overlapping another operation in time")
 	const size = 16
 	n := 400
 	if c.Thorough() {
@@ -219,12 +242,23 @@ func runC15(c *Ctx) {
 		if overlap {
 			c.NT(nn)
 		}
-		c.Obs(nn, "lin=1")
+		// the tie: the verdict of the extracted verified checker on this history against the verdict of the brute-force search here
+		lin := linSearch(initial, hist)
+		c.Obs(nn, "lin="+map[bool]string{true: "1", false: "0"}[lin])
 		ok, why := true, ""
 		if failed != "" {
 			ok, why = false, "an operation failed: "+failed
-		} else if !linSearch(initial, hist) {
-			ok, why = false, "no sequential order of the operations explains the observed results (history in the case line)"
+		} else if !lin {
+			// The property holds "provided the backing store's own ReadAt/WriteAt are atomic". The request-server store of this
+			// harness is (one mutex). Linux pread/pwrite on one regular file are not atomic with respect to each other: a read
+			// may see part of a concurrent multi-byte write. For the os-backed servers a history that is not linearizable as a
+			// whole is therefore re-examined byte by byte (single-byte accesses cannot be torn): if every byte position on its
+			// own is linearizable and all sizes are right, the proviso failed, not the package.
+			if (be == "os" || be == "osalloc") && linBytewise(initial, hist) {
+				c.Stat("os_histories_torn_by_the_kernel")
+			} else {
+				ok, why = false, "no sequential order of the operations explains the observed results (history in the case line)"
+			}
 		}
 		c.Oracle(nn, ok, why)
 		c.Stat(fmt.Sprintf("ops_%d", len(hist)))
